@@ -212,9 +212,40 @@ def check_op(facts, f, bi, si, kind, t):
                     why = "kernel not decided: %s" % e
             return ok_slice and okk, "slice of the buffer matched by ascii_lowercase_u64: %s (lane-wise, no carries between lanes); the byte-wise path's class is checked in C03" % why
         if nid in ("flussab_btor2::token::required_hex_constant", "flussab_btor2::token::required_decimal_constant", "flussab_btor2::token::required_binary_constant"):
+            arg = peel_try(f, arg)
             ok = is_call(arg, "DeferredReader::advance_with_buf") and is_call(arg[3][1], "str::len") and mentions(arg[3][1], lambda x: x[0] == "call" and norm(x[2]).endswith(("hex_string", "decimal_string", "binary_string")))
             return ok, "the bytes advanced over are exactly the validated str returned by the scanner (advance_with_buf(str.len()))"
     return None
+
+
+def peel_try(f, e, depth=0):
+    """the success payload behind `?`-plumbing: `let v = helper(..)?` where the (inlined) helper hands out
+    `Ok(x)` on exactly one path gives x"""
+    sy = sym(f)
+    if depth > 6:
+        return e
+    e0 = sy.origin(e)
+    if e0 != e:
+        return peel_try(f, e0, depth + 1)
+    if e[0] == "f" and e[2] == "0" and e[1][0] == "v" and e[1][2] == "Continue" and e[1][1][0] == "call" and e[1][1][2].endswith(("Try>::branch", "Try::branch")):
+        x = e[1][1][3][0]
+        seen = 0
+        while x[0] == "l" and seen < 6:
+            seen += 1
+            ds = [d for d in sy.defs.get(x[1], []) if d[0] == "stmt"]
+            oks = [d for d in ds if d[3]["k"] == "agg" and d[3].get("variant") == "Ok"]
+            moves = [d for d in ds if d[3]["k"] == "use"]
+            if len(oks) == 1 and len(ds) - len(oks) == len([d for d in ds if d[3]["k"] == "agg" and d[3].get("variant") == "Err"]):
+                return peel_try(f, sy.operand(oks[0][3]["ops"][0]), depth + 1)
+            if len(ds) == 1 and moves:
+                x = sy.operand(moves[0][3]["a"])
+                if x[0] != "l":
+                    break
+                continue
+            break
+        if x[0] == "agg" and x[2] == "Ok" and x[3]:
+            return peel_try(f, x[3][0], depth + 1)
+    return e
 
 
 def run_r1(ctx, rule):
@@ -388,6 +419,12 @@ def run(ctx):
     from .c02 import run_r3 as c02_r3
     r4 = ctx.rule("C14-R4", "an untrusted Read cannot enlarge the window: slice of exactly chunk_size, valid_len += n only behind n <= chunk_size", floor=3)
     c02_r3(ctx, r4)
+    # R5: the unchecked accessors (buf, buf_ptr, advance_with_buf, request_byte_at_offset) index the buffer with
+    # pos_in_buf / valid_len: whoever shortens the buffer must keep the window inside it (C02-R4: shrinking is guarded
+    # and only request_more changes the buffer)
+    from .c02 import run_r4 as c02_r4
+    r5 = ctx.rule("C14-R5", "the buffer is shortened only in request_more, behind the guard that keeps the window inside it (shared with C02-R4)", floor=3)
+    c02_r4(ctx, r5)
     ctx.assume("absence of UB inside std / itoap and aliasing-model questions of the raw pointer API are not decided")
     ctx.assume("the multiply-and-shift reduction of the digit kernel is value-level (its byte class and lane independence are decided: C13-R5, and for the keyword kernel here)")
     return "other", "unsafe inventory with guard dominance, trusted-field confinement and panic-safety of trusted fields", {}
